@@ -185,7 +185,8 @@ def run_check(module, tier, seed, only_leg=None):
             for k, v in r.outcomes.items():
                 part.outcomes[k] = part.outcomes.get(k, 0) + v
             for k, v in r.extra.items():
-                part.extra[k] = part.extra.get(k, 0) + v
+                # extras are counters; those named max_* are maxima
+                part.extra[k] = max(part.extra.get(k, 0), v) if k.startswith('max_') else part.extra.get(k, 0) + v
         rep = {
             'leg': leg.name, 'shards': len(shards), 'evaluations': part.n,
             'distinct_classes': len(part.classes),
